@@ -10,8 +10,11 @@ struct, oblj = sys.argv[1], sys.argv[2]
 hits = collections.defaultdict(lambda: collections.defaultdict(list))     # variant -> property -> [lines]
 # STRUCT may be several files separated by commas; `file@v1+v2` = a later re-run of just these variants (their earlier results are dropped)
 for spec in struct.split(","):
-    fn_, _, only = spec.partition("@")
+    fn_, _, props_ = spec.partition("%")       # `file%C03+C11` = a later re-run of just these properties over all variants (their earlier results are dropped)
+    fn_, _, only = fn_.partition("@")
     for v_ in (only.split("+") if only else []): hits.pop(v_, None)
+    for c_ in (props_.split("+") if props_ else []):
+        for v_ in list(hits): hits[v_].pop(c_, None)
     cur = None
     for l in open(fn_, errors="replace"):
         if l.startswith("== "): cur = l.split()[1]; continue
